@@ -26,7 +26,7 @@ func (s *c09Scope) lookup(n string) (string, bool) {
 	return "", false
 }
 
-var c09Kinds = []string{"for", "fn", "partial", "cf", "cfd", "bw", "blk", "if", "forit", "formap", "cf2", "cfar"}
+var c09Kinds = []string{"for", "fn", "partial", "cf", "cfd", "bw", "blk", "if", "forit", "formap", "cf2", "pvar2", "cfar"}
 
 type c09Level struct {
 	kind   int
@@ -147,6 +147,20 @@ func (g *c09Gen) construct(l int, parent *c09Scope) (src, exp string) {
 	case "if":
 		bs, be := g.body(l, parent) // if: same scope
 		return `<%= if (true) { %>` + bs + `<% } %>`, be
+	case "pvar2":
+		// one data map held in a variable and passed to two partial calls (innermost level only)
+		first := &c09Scope{vars: map[string]string{fmt.Sprintf("d%d", l): fmt.Sprintf("D%d", l)}, parent: parent}
+		second := &c09Scope{vars: map[string]string{fmt.Sprintf("d%d", l): fmt.Sprintf("D%d", l)}, parent: parent}
+		bsrc := g.actionsSrc(l) + fmt.Sprintf("(pvar2-%d:", l) + g.probesSrc() + ")"
+		na, nb := fmt.Sprintf("pva%d", l), fmt.Sprintf("pvb%d", l)
+		g.partials[na] = bsrc
+		g.partials[nb] = fmt.Sprintf("(pvar2b-%d:", l) + g.probesSrc() + ")"
+		g.actionsModel(l, first)
+		e1 := fmt.Sprintf("(pvar2-%d:", l) + g.probesExp(first) + ")"
+		e2 := fmt.Sprintf("(pvar2b-%d:", l) + g.probesExp(second) + ")"
+		// the variable holding the map lives in the enclosing scope
+		parent.vars[fmt.Sprintf("dm%d", l)] = "" // (not probed)
+		return fmt.Sprintf(`<%% let dm%d = %s %%><%%= partial("%s", dm%d) %%>|<%%= partial("%s", dm%d) %%>`, l, d, na, l, nb, l), e1 + "|" + e2
 	case "cf2":
 		// one stored block used twice: first with data, then without (innermost level only: no nested construct)
 		first := &c09Scope{vars: map[string]string{fmt.Sprintf("d%d", l): fmt.Sprintf("D%d", l)}, parent: parent}
@@ -219,7 +233,7 @@ func init() {
 			return s
 		},
 		Run:  c09Run,
-		Rule: "nestings of {for over a slice / an Iterator / a map, user-function call, partial with data, contentFor+contentOf with data, contentOf default block with data, block helper using BlockWith(child), block helper using Block(), if, contentFor defined at top level and used at the inner level, one contentFor block used twice (with and without data)}; at each level every subset of {let fresh_l, shadowing let o, assignment o = …}; every name (o, fresh names, loop variables, parameters, data names of every level) is probed at the end of each body, after each construct closes and at the end of the template; compared with an environment-chain reference model (let/assign bind in the current scope, lookup outward; for/call/partial/contentOf/BlockWith open a scope, if and Block() do not; a far contentFor block runs in a child of its definition scope). Non-trivial: depth >= 2 with at least one binding action.",
+		Rule: "nestings of {for over a slice / an Iterator / a map, user-function call, partial with data, contentFor+contentOf with data, contentOf default block with data, block helper using BlockWith(child), block helper using Block(), if, contentFor defined at top level and used at the inner level, one contentFor block used twice (with and without data), one data map held in a variable and passed to two partial calls}; at each level every subset of {let fresh_l, shadowing let o, assignment o = …}; every name (o, fresh names, loop variables, parameters, data names of every level) is probed at the end of each body, after each construct closes and at the end of the template; compared with an environment-chain reference model (let/assign bind in the current scope, lookup outward; for/call/partial/contentOf/BlockWith open a scope, if and Block() do not; a far contentFor block runs in a child of its definition scope). Non-trivial: depth >= 2 with at least one binding action.",
 		Bound: func(th bool) string {
 			if th {
 				return "depth <=3, all 8 action subsets per level"
@@ -235,7 +249,7 @@ func c09Run(t *engine.T, shard string) {
 	run := func(levels []c09Level) {
 		lv := append([]c09Level{}, levels...)
 		for i := 0; i < len(lv)-1; i++ {
-			if k := c09Kinds[lv[i].kind]; k == "cfar" || k == "cf2" {
+			if k := c09Kinds[lv[i].kind]; k == "cfar" || k == "cf2" || k == "pvar2" {
 				return // cfar / cf2 are only generated as the innermost level
 			}
 		}
